@@ -1,12 +1,80 @@
 (* C05 — deciding obligations. Statements only, closed by the lemmas proved in Circ/*Proofs.v. *)
 From Coq Require Import ZArith List Bool Permutation.
-From VF Require Import Circ.Moments Circ.Placement Circ.Insert Circ.History
-  Circ.MomentsProofs Circ.InsertProofs Circ.HistoryProofs.
+From VF Require Import Circ.Moments Circ.Placement Circ.Insert Circ.BatchEdit Circ.History
+  Circ.MomentsProofs Circ.InsertProofs Circ.PlacementProofs Circ.CacheProofs Circ.BatchProofs Circ.HistoryProofs.
 Import ListNotations.
 Open Scope Z_scope.
 
-(* D1: after any history of modelled public calls (operands being objects Cirq accepted) every moment
-   holds operations on pairwise disjoint qubits *)
+(* D1 wf_preserved: after any history of modelled public calls (37 call forms; operands being objects
+   Cirq accepted) every moment holds operations on pairwise disjoint qubits — also when calls raise *)
 Theorem C05_wf_preserved : forall h, Forall call_wf h -> wf (moms (run empty_circuit h)).
 Proof. exact history_wf. Qed.
 Print Assumptions C05_wf_preserved.
+
+(* D2 no_loss_no_dup: insert with any strategy / index, cached or not: the uids afterwards are a
+   permutation of the old ones plus the inserted ones; a failing insert loses and invents nothing *)
+Theorem C05_no_loss_no_dup : forall c i its s c' z,
+  insert c i its s = (c', inl z) -> Permutation (uids (moms c')) (uids (moms c) ++ map uid (items_ops its)).
+Proof. exact insert_no_loss. Qed.
+Print Assumptions C05_no_loss_no_dup.
+
+Theorem C05_no_loss_on_failure : forall c i its s c' e u,
+  insert c i its s = (c', inr e) ->
+  (ccnt u (moms c) <= ccnt u (moms c') <= ccnt u (moms c) + icnt u its)%nat.
+Proof. exact insert_failure_bounds. Qed.
+Print Assumptions C05_no_loss_on_failure.
+
+Theorem C05_no_loss_constructor : forall its s c' z,
+  construct its s = (c', inl z) -> Permutation (uids (moms c')) (map uid (items_ops its)).
+Proof. exact construct_no_loss. Qed.
+Print Assumptions C05_no_loss_constructor.
+
+(* D3 cache_refines: in every history without with_tags the placement cache, whenever present, equals
+   the summary recomputed from the moments ... *)
+Theorem C05_cache_refines : forall h, Forall not_with_tags h -> cache_ok (run empty_circuit h).
+Proof. exact history_cache_ok. Qed.
+Print Assumptions C05_cache_refines.
+
+(* ... one cached placement succeeds and keeps that agreement ... *)
+Theorem C05_cache_step : forall pc ms it idx pc',
+  cache_matches pc ms -> cache_append pc it = (idx, pc') ->
+  exists ms', place ms idx it = inl ms' /\ cache_matches pc' ms'.
+Proof. exact cache_place_ok. Qed.
+Print Assumptions C05_cache_step.
+
+(* ... and a cached append cannot raise *)
+Theorem C05_cached_append_succeeds : forall c its pc,
+  cache c = Some pc -> cache_matches pc (moms c) -> exists c' z, append c its EARLIEST = (c', inl z).
+Proof. exact cached_append_succeeds. Qed.
+Print Assumptions C05_cached_append_succeeds.
+
+(* with_tags breaks it (genuine defect of /repo, known finding order:with_tags): statements kept refuted *)
+Theorem C05_cache_refines_with_tags_refuted : exists h, Forall call_wf h /\ ~ cache_ok (run empty_circuit h).
+Proof. exact with_tags_cache_refuted. Qed.
+Print Assumptions C05_cache_refines_with_tags_refuted.
+
+Theorem C05_append_last_with_tags_refuted :
+  exists h m, Forall call_wf (h ++ [CAppend [IMom m] EARLIEST]) /\
+              moms (run empty_circuit (h ++ [CAppend [IMom m] EARLIEST])) <> moms (run empty_circuit h) ++ [m].
+Proof. exact with_tags_append_refuted. Qed.
+Print Assumptions C05_append_last_with_tags_refuted.
+
+(* D6 summaries_valid: in a history in which no exception escaped insert half-way, every lazily cached
+   summary that is marked valid equals its recomputation from the moments *)
+Theorem C05_summaries_valid : forall h, clean empty_circuit h -> sums_ok (run empty_circuit h).
+Proof. exact history_sums_ok. Qed.
+Print Assumptions C05_summaries_valid.
+
+(* non-vacuity of the hypotheses *)
+Example C05_hypotheses_example :
+  let h := [CAppend [IOp (mkop 1 [0; 1] [] [] [] true); IMom [mkop 2 [0] [3] [] [] false]] EARLIEST;
+            QAllQubits; CInsert (-1) [IOp (mkop 3 [1] [] [3] [] false)] LATEST; CBatchRemove [(0, mkop 1 [0; 1] [] [] [] true)]] in
+  Forall call_wf h /\ Forall not_with_tags h /\ clean empty_circuit h /\
+  uid_moms (moms (run empty_circuit h)) = [[]; [3]; [2]].
+Proof.
+  cbv zeta. split; [|split; [|split]].
+  - repeat constructor; simpl; intuition discriminate.
+  - repeat constructor.
+  - vm_compute. tauto.
+  - vm_compute. reflexivity.
+Qed.
